@@ -364,7 +364,7 @@ def _slip39(ctx: Ctx, rng: _Rng) -> None:
 # ---------------------------------------------------------------------------
 # BIP39 / Electrum / BIP85: generator -> courier -> restorer
 # ---------------------------------------------------------------------------
-_PW_ALPHABET = ["a", "Z", " ", "  ", "é", "é", "ñ", "Å", "ß", "ﬁ", "①", "㏒", "　", "パ", "İ", "1", "!"]
+_PW_ALPHABET = ["a", "Z", " ", "  ", "é", "é", "ñ", "Å", "ß", "ﬁ", "①", "㏒", "　", "パ", "İ", "1", "!", "™", "№", "℃", "㏍", "\U0001d400", "Ǆ", "ẞ", "ϒ"]  # among the last eight: characters on which lower() and NFKD do not commute
 
 
 def _entropy_draw(ch: Any, rng: _Rng) -> tuple[Any, str | None]:
